@@ -90,6 +90,12 @@ MUTANTS = [
     ("cursor-size-hint-unchecked", "C13", "R-CURSOR", "Split", "crates/runtime/src/core_lib/string/iterators.rs",
      "impl Iterator for Split {\n    type Item = Output;\n",
      "impl Split {\n    #[allow(dead_code)]\n    fn remaining(&self) -> usize {\n        self.input.len() - self.start\n    }\n}\n\nimpl Iterator for Split {\n    type Item = Output;\n"),
+    ("slice-tail-assumed-newline", "C06", "R-SLICE-TAIL", "read_line", "crates/runtime/src/core_lib/io.rs",
+     "                    let line = result.strip_suffix('\\n').unwrap_or(&result);\n                    line.strip_suffix('\\r').unwrap_or(line).into()",
+     "                    let newline_bytes = if result.ends_with(\"\\r\\n\") { 2 } else { 1 };\n                    result[..result.len() - newline_bytes].into()"),
+    ("column-as-byte-offset-in-cli", "C11", "R-COLUMN-BYTES", "format_source_excerpt", "crates/parser/src/error.rs",
+     "                excerpt_lines.first().unwrap(),\n            );",
+     "                &excerpt_lines.first().unwrap()[..(end.column as usize).min(excerpt_lines.first().unwrap().len())],\n            );"),
     # ---- R-BUILDER-BAL
     ("builder-string-finish-conditional", "C05", "R-BUILDER-BAL", "compile_string", "crates/bytecode/src/compiler.rs",
      "                        if let Some(result_register) = result.register {\n                            self.push_op(Op::StringFinish, &[result_register]);\n                        }",
